@@ -7,6 +7,7 @@ from vp.fakes import ScriptSocket, segmentations
 
 from slimta.smtp.io import IO
 from slimta.smtp.reply import Reply
+from slimta.smtp import reply as reply_mod
 from slimta.smtp import BadReply, ConnectionLost
 
 ASSUMPTIONS = [
@@ -17,10 +18,29 @@ ASSUMPTIONS = [
 
 WS = re.compile(r'\s')
 ESC_LOOKING = re.compile(r'^([245]\.\d\d?\d?\.\d\d?\d?)\s+')
+# anything that starts like <digit>.<digits>.<digits>: status-code-looking, valid or not
+ESC_SHAPED = re.compile(r'^\d+\.\d+\.\d+')
+VALID_CODE = re.compile(r'[1-5][0-9][0-9]\Z', re.A)
+
+PER_KEY_CAP = 25
+_reported = {}
+
+
+def report(ctx, key, case, what):
+    """ctx.fail, at most PER_KEY_CAP stored cases per key (ctx keeps 200 failures in all)"""
+    _reported[key] = _reported.get(key, 0) + 1
+    if _reported[key] <= PER_KEY_CAP:
+        ctx.fail(key, case, what)
+    else:
+        ctx.count('oracle-fail:' + key)
 
 
 def norm(t):
     return re.sub(r'\r?\n', '\r\n', t)
+
+
+def exc_text(exc):
+    return '%s: %s' % (type(exc).__name__, exc)
 
 
 def impl_build(code, text):
@@ -31,7 +51,38 @@ def impl_build(code, text):
     return r.message, io.send_buffer.getvalue(), r.enhanced_status_code
 
 
+def safe_build(ctx, code, text):
+    """impl_build; an exception (constructor or send) is an oracle failure with the input as
+    replay -- a three-digit code and a Unicode text always make a reply -- and the run goes on.
+    Returns (message, wire, esc) or None."""
+    try:
+        return impl_build(code, text)
+    except Exception as exc:
+        if VALID_CODE.match(code):
+            report(ctx, 'c17:build-raises', dict(code=code, text=text, op='build'),
+                   'Reply(%r, %r) followed by send raised %s; no reply was built or written' % (code, text, exc_text(exc)))
+        return None
+
+
+def impl_ctor(code, text):
+    """Reply(code, text) alone, in the shape of the model entry c17_ctor"""
+    try:
+        r = Reply(code or None, text)
+    except ValueError as exc:
+        if exc.args and exc.args[0] == 'Invalid SMTP reply code':
+            return (1,)
+        if exc.args and exc.args[0] == 'Invalid ENHANCEDSTATUSCODES string':
+            return (2,)
+        return (4, exc_text(exc))
+    except Exception as exc:
+        return (4, exc_text(exc))
+    esc = r.enhanced_status_code
+    return (0, r.code or '', r.raw_message or '', r.message or '', (esc,) if esc is not None else ())
+
+
 def impl_recv(buf, chunks):
+    """(0, code, message, unread, esc) | (1, unread) BadReply | (2,) ValueError of the code setter |
+    (3,) ConnectionLost | (4, text) any other exception: neither a reply nor BadReply"""
     sock = ScriptSocket(chunks)
     io = IO(sock, ('h', 25))
     io.recv_buffer = buf
@@ -40,11 +91,24 @@ def impl_recv(buf, chunks):
         r.recv(io)
     except BadReply:
         return (1, io.recv_buffer + sock.unread())
-    except ValueError:
-        return (2,)
     except ConnectionLost:
         return (3,)
+    except ValueError as exc:
+        if exc.args and exc.args[0] == 'Invalid SMTP reply code':
+            return (2,)
+        return (4, exc_text(exc))
+    except Exception as exc:
+        return (4, exc_text(exc))
     return (0, r.code, r.message, io.recv_buffer + sock.unread(), r.enhanced_status_code)
+
+
+def judge_recv_exception(ctx, io_out, case):
+    """malformed or not: the only exceptions Reply.recv may raise are BadReply / ConnectionLost"""
+    if io_out[0] == 4:
+        report(ctx, 'c17:recv-raises-not-badreply', case,
+               'Reply.recv raised %s: the caller gets neither a reply nor BadReply' % io_out[1])
+        return True
+    return False
 
 
 def model_recv_out(o, chunks):
@@ -63,16 +127,69 @@ def model_recv_out(o, chunks):
 
 # ------------------------------------------------------------ generators
 PIECES = ['a', 'Ok', 'queued as 1234', ' ', '\t', '\r', '\n', '\r\n', '.', '-', '2.0.0 ', '5.1.1 ', '4.2.0\t',
-          '2.0.0', '5.7.8  ', '2.1.5\r\n', 'é', '٣', ' ', '\U0001F600', '250', '250-', '250 ',
+          '2.0.0', '5.7.8  ', '2.1.5\r\n', 'é', '٣', ' ', '\U0001F600', '250', '250-', '250 ',
           '3', '1.2.3 ', '2.999.999 ', '2.1000.0 ', '4.٣.0 ', '\x0b', '\x0c', '\x1c', '\x85', '\xa0', 'x' * 70,
           '\n\n', '\r\r\n', 'Go ahead', 'PIPELINING', '8BITMIME\nSIZE 100', '=', 'dGVzdA==']
 
+# status-code-looking prefixes: genuine, too long components, leading zeros, all zeros, wrong
+# class digit, non-ASCII digits, truncated / over-long shapes
+ESC_PREFIXES = [
+    ('genuine', ['2.0.0', '5.1.1', '4.2.0', '2.999.999', '5.7.8', '4.10.100']),
+    ('zeros', ['2.000.000', '5.00.0', '4.0.00', '2.0.000']),
+    ('leading-zero', ['2.01.007', '5.001.1', '4.010.09']),
+    ('4plus-digits', ['2.1179.245', '5.7.1234', '4.12345.0', '2.1000.5', '2.0.0000', '5.0001.1', '2.0000.0000',
+                      '4.99999999.1', '5.1.100000000000']),
+    ('wrong-class', ['1.2.3', '3.0.0', '6.1.1', '0.0.0', '9.99.999', '3.1000.1']),
+    ('unicode-digit', ['2.٣.0', '5.1.٣٣', '2.1.٣٣٣٣', '٢.1.1', '4.१२३४.0']),
+    ('not-a-triple', ['5.', '5.1', '5.1.', '2..0', '25.1.1', '2.1.1.1', '2.1', '.1.1']),
+]
+ESC_SEPS = [' ', '  ', '\t', '\r\n', '\n', '', 'x', '\xa0', '\x1c', ' \n ']
+ESC_TAILS = [('single', 'foo'), ('single', ''), ('multi', 'line one\nline two'), ('multi', 'a\r\n5.7.1234 b\n2.0.0 c')]
+ESC_CODES = ['250', '220', '354', '334', '451', '421', '550', '535']
 
-def gen_text(rng):
+
+def gen_component(rng):
+    k = rng.randrange(8)
+    if k == 0:
+        return str(rng.randrange(10))
+    if k == 1:
+        return str(rng.randrange(10, 1000))
+    if k == 2:
+        return str(rng.randrange(1000, 10 ** rng.choice([4, 5, 9, 20])))      # 4+ digits
+    if k == 3:
+        return '0' * rng.randrange(1, 6)
+    if k == 4:
+        return '0' * rng.randrange(1, 3) + str(rng.randrange(100))            # leading zeros
+    if k == 5:
+        return rng.choice(['٣', '1٣', '٣٣٣٣', '१२'])
+    return str(rng.randrange(0, 1200))
+
+
+def gen_esc_prefix(rng, code):
+    """(kind, text) - a status-code-looking start for a reply text with the given code"""
+    k = rng.randrange(5)
+    if k == 0:
+        cls = code[0]
+    elif k == 1:
+        cls = rng.choice([c for c in '245' if c != code[0]])                 # class differs from the code's
+    elif k == 2:
+        cls = rng.choice('245')
+    elif k == 3:
+        cls = rng.choice('136079')                                            # no such class
+    else:
+        kind, items = rng.choice(ESC_PREFIXES)
+        return kind, rng.choice(items)
+    return 'random', cls + '.' + gen_component(rng) + '.' + gen_component(rng)
+
+
+def gen_text(rng, code='250'):
     k = rng.choice([0, 1, 1, 2, 2, 3, 4, 6])
     t = ''.join(rng.choice(PIECES) for _ in range(k))
-    if rng.random() < 0.3:
+    r = rng.random()
+    if r < 0.3:
         t = rng.choice(['2', '4', '5']) + '.' + str(rng.randrange(0, 1200)) + '.' + str(rng.randrange(0, 1200)) + rng.choice([' ', '  ', '\t', '\n', '\r\n', '', 'x']) + t
+    elif r < 0.55:
+        t = gen_esc_prefix(rng, code)[1] + rng.choice(ESC_SEPS) + t
     if t and WS.match(t):
         t = rng.choice(['a', 'Ok', '.', '2.0.0 x']) + t
     return t
@@ -87,7 +204,99 @@ def gen_code(rng):
     return str(rng.randrange(200, 600))
 
 
+def gen_reply(rng):
+    code = gen_code(rng)
+    return (code, gen_text(rng, code))
+
+
+def esc_matrix():
+    """every code class 2xx..5xx x every status-code-looking prefix x separators x single/multi-line tails"""
+    out = []
+    for code in ESC_CODES:
+        for kind, items in ESC_PREFIXES:
+            for pre in items:
+                for sep in ESC_SEPS:
+                    for lines, tail in ESC_TAILS:
+                        out.append((kind, lines, (code, pre + sep + tail)))
+    return out
+
+
 TRAILERS = [b'', b'250 ok\r\n', b'2', b'250-', b'\r\n', b'QUIT\r\n', b'\xff', b'250 partial']
+
+
+def nontrivial_reply(ct, s):
+    return ('\n' in ct[1] or bool(ESC_SHAPED.match(ct[1])) or any(ord(c) > 127 for c in ct[1]) or len(s) > 1)
+
+
+def build_all(ctx, flat):
+    """builds every (code, text) with the implementation and the model; returns {ct: (message, wire)}
+    for the ones the implementation could build"""
+    flat = list(dict.fromkeys(flat))
+    m_wire = ctx.model.batch('c17_wire', [list(ct) for ct in flat])
+    m_msg = ctx.model.batch('c17_getmsg', [list(ct) for ct in flat])
+    m_ctor = ctx.model.batch('c17_ctor', [list(ct) for ct in flat])
+    built = {}
+    for ct, mw, mm, mc in zip(flat, m_wire, m_msg, m_ctor):
+        case = dict(code=ct[0], text=ct[1], op='build')
+        res = safe_build(ctx, *ct)
+        if res is None:
+            # reported as c17:build-raises; the model (C17_construction_total) builds this reply
+            ctx.mismatch('build-raises', case, 'exception', dict(message=U(mm), wire=B(mw), ctor_tag=mc[0]))
+            continue
+        msg, wire, esc = res
+        built[ct] = (msg, wire)
+        if wire != B(mw) or msg != U(mm) or mc[0] != 0 or U(mc[3]) != msg or tuple(U(e) for e in mc[4]) != ((esc,) if esc is not None else ()):
+            ctx.mismatch('build', case, dict(message=msg, wire=wire, esc=esc), dict(message=U(mm), wire=B(mw), ctor=mc))
+        if esc is not None and esc[0] != ct[0][0]:
+            report(ctx, 'c17:esc-class', dict(code=ct[0], text=ct[1]), 'enhanced status %r class differs from code' % esc)
+    return built
+
+
+def parse_back(ctx, jobs, built):
+    """jobs: (replies, trailer, buf, chunks, mode).  The implementation parses the replies one after the
+    other; every recv call is then replayed through the model in one batch."""
+    calls = []      # (case, io_out, buf, chunks)
+    for (s, trailer, buf, chunks, mode) in jobs:
+        ctx.count('seg:' + mode)
+        cur_buf, cur_chunks = buf, list(chunks)
+        for idx, ct in enumerate(s):
+            want_msg = norm(built[ct][0])
+            io_out = impl_recv(cur_buf, cur_chunks)
+            case = dict(code=ct[0], text=ct[1], buf=cur_buf, chunks=cur_chunks, index=idx, mode=mode)
+            calls.append((case, io_out, cur_buf, cur_chunks))
+            ctx.evaluated((ct, mode, len(cur_chunks), idx), nontrivial=nontrivial_reply(ct, s))
+            remaining_want = b''.join(built[c2][1] for c2 in s[idx + 1:]) + trailer
+            if judge_recv_exception(ctx, io_out, case):
+                break
+            ok = (io_out[0] == 0 and io_out[1] == ct[0] and io_out[2] == want_msg and io_out[3] == remaining_want)
+            if ok and io_out[4] is not None and io_out[4][0] != ct[0][0]:
+                ok = False
+            if not ok:
+                key = 'c17:roundtrip'
+                if ct[0][0] == '3' and ESC_LOOKING.match(ct[1]):
+                    key = 'c17:3xx-esc-looking-text'
+                report(ctx, key, case, 'sent (%r, %r) got %r, expected remaining %r' % (ct[0], want_msg, io_out, remaining_want))
+                break
+            # continue with what is left: everything unread goes to one buffer
+            cur_buf, cur_chunks = io_out[3], []
+        ctx.sample(dict(kind='roundtrip', replies=s, trailer=trailer, buf=buf, chunks=chunks), cap=3)
+    outs = ctx.model.batch('c17_recv', [[b, ch] for (_, _, b, ch) in calls])
+    for (case, io_out, b, ch), o in zip(calls, outs):
+        mo = model_recv_out(o, ch)
+        if io_out[:4] != mo:
+            ctx.mismatch('recv', case, io_out, mo)
+
+
+def seg_jobs(rng, s, built, trailer, modes, everycut):
+    data = b''.join(built[ct][1] for ct in s) + trailer
+    jobs = []
+    for mode in modes:
+        pre = rng.choice([0, 0, rng.randrange(0, len(data) + 1)])
+        jobs.append((s, trailer, data[:pre], segmentations(data[pre:], rng, mode), mode))
+    if everycut:
+        for c in range(1, len(data)):
+            jobs.append((s, trailer, b'', [data[:c], data[c:]], 'everycut'))
+    return jobs
 
 
 def run_structured(ctx, n_seq):
@@ -96,60 +305,38 @@ def run_structured(ctx, n_seq):
     seqs = []
     for i in range(n_seq):
         k = rng.choice([1, 1, 2, 3])
-        seqs.append([(gen_code(rng), gen_text(rng)) for _ in range(k)])
-    flat = [ct for s in seqs for ct in s]
-    m_wire = ctx.model.batch('c17_wire', [list(ct) for ct in flat])
-    m_msg = ctx.model.batch('c17_getmsg', [list(ct) for ct in flat])
-    built = {}
-    for ct, mw, mm in zip(flat, m_wire, m_msg):
-        msg, wire, esc = impl_build(*ct)
-        built[ct] = (msg, wire)
-        if wire != B(mw) or msg != U(mm):
-            ctx.mismatch('build', dict(code=ct[0], text=ct[1]), dict(message=msg, wire=wire), dict(message=U(mm), wire=B(mw)))
-        if esc is not None and esc[0] != ct[0][0]:
-            ctx.fail('c17:esc-class', dict(code=ct[0], text=ct[1]), 'enhanced status %r class differs from code' % esc)
-    # 2. parse back under segmentations
+        seqs.append([gen_reply(rng) for _ in range(k)])
+    built = build_all(ctx, [ct for s in seqs for ct in s])
+    # 2. parse back under segmentations (replies the implementation could not build are left out)
     jobs = []
     for s in seqs:
-        stream = b''.join(built[ct][1] for ct in s)
+        s = [ct for ct in s if ct in built]
+        if not s:
+            continue
         trailer = rng.choice(TRAILERS)
-        data = stream + trailer
-        modes = ['whole', 'bytes', 'lines', 'random', 'random']
-        if len(data) <= 40:
-            modes.append('everycut')
-        for mode in modes:
-            if mode == 'everycut':
-                for c in range(1, len(data)):
-                    jobs.append((s, trailer, b'', [data[:c], data[c:]], mode))
-            else:
-                pre = rng.choice([0, 0, rng.randrange(0, len(data) + 1)])
-                chunks = segmentations(data[pre:], rng, mode)
-                jobs.append((s, trailer, data[:pre], chunks, mode))
-    # model: chain of recv calls; we send each step separately using the impl-independent remaining stream
-    for (s, trailer, buf, chunks, mode) in jobs:
-        ctx.count('seg:' + mode)
-        cur_buf, cur_chunks = buf, list(chunks)
-        for idx, ct in enumerate(s):
-            want_msg = norm(built[ct][0])
-            io_out = impl_recv(cur_buf, cur_chunks)
-            mo = model_recv_out(ctx.model.call('c17_recv', [cur_buf, cur_chunks]), cur_chunks)
-            case = dict(code=ct[0], text=ct[1], buf=cur_buf, chunks=cur_chunks, index=idx, mode=mode)
-            ctx.evaluated((ct, mode, len(cur_chunks), idx), nontrivial=('\n' in ct[1] or bool(ESC_LOOKING.match(ct[1])) or any(ord(c) > 127 for c in ct[1]) or len(s) > 1))
-            if io_out[:4] != mo:
-                ctx.mismatch('recv', case, io_out, mo)
-            remaining_want = b''.join(built[c2][1] for c2 in s[idx + 1:]) + trailer
-            ok = (io_out[0] == 0 and io_out[1] == ct[0] and io_out[2] == want_msg and io_out[3] == remaining_want)
-            if ok and io_out[4] is not None and io_out[4][0] != ct[0][0]:
-                ok = False
-            if not ok:
-                key = 'c17:roundtrip'
-                if ct[0][0] == '3' and ESC_LOOKING.match(ct[1]):
-                    key = 'c17:3xx-esc-looking-text'
-                ctx.fail(key, case, 'sent (%r, %r) got %r, expected remaining %r' % (ct[0], want_msg, io_out, remaining_want))
-                break
-            # continue with what is left: everything unread goes to one buffer
-            cur_buf, cur_chunks = io_out[3], []
-        ctx.sample(dict(kind='roundtrip', replies=s, trailer=trailer, buf=buf, chunks=chunks), cap=3)
+        n = sum(len(built[ct][1]) for ct in s) + len(trailer)
+        jobs += seg_jobs(rng, s, built, trailer, ['whole', 'bytes', 'lines', 'random', 'random'], n <= 40)
+    parse_back(ctx, jobs, built)
+
+
+def run_esc_matrix(ctx, everycut_one_in):
+    """status-code-looking reply texts, systematically: codes 2xx..5xx x prefixes (4+ digit components,
+    leading zeros, zeros, wrong class, class differing from the code's, non-ASCII digits) x separators x
+    single-/multi-line, alone and followed by a pipelined reply, at the segmentations used above"""
+    rng = ctx.rng
+    matrix = esc_matrix()
+    successor = ('250', 'ok')
+    built = build_all(ctx, [ct for (_, _, ct) in matrix] + [successor])
+    jobs = []
+    for i, (kind, lines, ct) in enumerate(matrix):
+        ctx.count('esc-matrix:%s:%sxx:%s' % (kind, ct[0][0], lines))
+        if ct not in built:
+            ctx.count('esc-matrix:not-built')
+            continue
+        s = [ct, successor] if (i % 3 == 0 and successor in built) else [ct]
+        trailer = TRAILERS[i % len(TRAILERS)]
+        jobs += seg_jobs(rng, s, built, trailer, ['whole', 'bytes', 'lines', 'random'], i % everycut_one_in == 0)
+    parse_back(ctx, jobs, built)
 
 
 # independent reference for the malformed stream
@@ -196,6 +383,8 @@ def run_malformed(ctx, maxlen, alphabet=b'25- \r\na.'):
         ctx.count('malformed-outcome:%d' % io_out[0])
         if io_out[:4] != mo:
             ctx.mismatch('recv-malformed', dict(buf=c), io_out, mo)
+        if judge_recv_exception(ctx, io_out, dict(buf=c)):
+            continue
         ref = ref_parse(c)
         exp = {'lost': 3, 'bad': 1, 'badcode': 2, 'ok': 0}[ref[0]]
         good = (io_out[0] == exp)
@@ -216,6 +405,7 @@ BAD_UTF8 = [b'\xff', b'\xc0\x80', b'\xc3', b'\xe2\x82', b'\xed\xa0\x80', b'\xf4\
 
 def run_malformed_structured(ctx, n):
     rng = ctx.rng
+    todo = []
     for i in range(n):
         kind = rng.choice(['utf8', 'codes', 'nonnumeric', 'valid-multibyte', 'code-range'])
         ctx.count('malformed-kind:' + kind)
@@ -234,15 +424,144 @@ def run_malformed_structured(ctx, n):
         else:
             data = ('%03d ok\r\n' % rng.choice([0, 99, 100, 199, 600, 999, 250])).encode()
         chunks = segmentations(data, rng, rng.choice(['whole', 'bytes', 'random']))
+        todo.append((data, chunks))
+    judge_peer_streams(ctx, todo, 'recv-malformed2', 'mal2')
+
+
+def judge_peer_streams(ctx, todo, kind, tag, nontrivial=True):
+    """todo: (data, chunks) with b''.join(chunks) == data, sent by a peer.  Reply.recv against the model
+    (batch) and against the independent reference parser; no exception but BadReply / ConnectionLost."""
+    outs = ctx.model.batch('c17_recv', [[b'', chunks] for (_, chunks) in todo])
+    for (data, chunks), o in zip(todo, outs):
         io_out = impl_recv(b'', chunks)
-        mo = model_recv_out(ctx.model.call('c17_recv', [b'', chunks]), chunks)
-        ctx.evaluated(('mal2', data, len(chunks)))
+        mo = model_recv_out(o, chunks)
+        ctx.evaluated((tag, data, len(chunks)), nontrivial=nontrivial)
         if io_out[:4] != mo:
-            ctx.mismatch('recv-malformed2', dict(chunks=chunks), io_out, mo)
+            ctx.mismatch(kind, dict(chunks=chunks), io_out, mo)
+        if judge_recv_exception(ctx, io_out, dict(chunks=chunks)):
+            continue
         ref = ref_parse(data)
         exp = {'lost': 3, 'bad': 1, 'badcode': 2, 'ok': 0}[ref[0]]
         if io_out[0] != exp or (exp == 0 and (io_out[1] != ref[1] or io_out[3] != ref[3])):
-            ctx.fail('c17:malformed', dict(chunks=chunks), 'expected %r got %r' % (ref, io_out))
+            report(ctx, 'c17:malformed', dict(chunks=chunks), 'expected %r got %r' % (ref, io_out))
+
+
+def ref_wire(code, text):
+    """what a peer writes for (code, text): independent of the implementation"""
+    lines = norm(text).split('\r\n')
+    out = b''
+    for i, l in enumerate(lines):
+        out += code.encode('ascii') + (b' ' if i == len(lines) - 1 else b'-') + l.encode('utf-8') + b'\r\n'
+    return out
+
+
+def run_peer_esc(ctx, n_random):
+    """a PEER sends replies whose text looks like an enhanced status code (the matrix above, written on
+    the wire by the harness, not by the library): Reply.recv returns a reply or raises BadReply"""
+    rng = ctx.rng
+    todo = []
+    cases = [(kind, ct) for (kind, _, ct) in esc_matrix()]
+    for i in range(n_random):
+        code = gen_code(rng)
+        kind, pre = gen_esc_prefix(rng, code)
+        cases.append((kind, (code, pre + rng.choice(ESC_SEPS) + rng.choice(ESC_TAILS)[1])))
+    for i, (kind, ct) in enumerate(cases):
+        ctx.count('peer-esc:%s:%sxx' % (kind, ct[0][0]))
+        data = ref_wire(*ct) + TRAILERS[i % len(TRAILERS)]
+        for mode in (['whole', 'bytes', 'random'] if i % 4 == 0 else ['whole', 'random']):
+            todo.append((data, segmentations(data, rng, mode)))
+    judge_peer_streams(ctx, todo, 'recv-peer-esc', 'peer')
+
+
+# ------------------------------------------------------------ the two patterns of reply.py
+def model_msgpat(o):
+    return (U(o[0]), U(o[1])) if o else None
+
+
+def impl_msgpat(v):
+    m = reply_mod.message_esc_pattern.match(v)
+    return (m.group(1), v[m.end(0):]) if m else None
+
+
+def model_escpat(o):
+    return tuple(U(x) for x in o) if o else None
+
+
+def impl_escpat(v):
+    m = reply_mod.esc_pattern.match(v)
+    return m.groups() if m else None
+
+
+def strings_over(alphabet, maxlen, prefix=''):
+    for L in range(0, maxlen + 1):
+        for tup in itertools.product(alphabet, repeat=L):
+            yield prefix + ''.join(tup)
+
+
+def batched(ctx, cases, entries, size=150000):
+    """(case, out_1, .., out_n) for every case, the model being run on slices of `cases`"""
+    for i in range(0, len(cases), size):
+        part = cases[i:i + size]
+        outs = [ctx.model.batch(e, part) for e in entries]
+        for row in zip(part, *outs):
+            yield row
+
+
+def run_patterns(ctx, len_plain, len_prefixed):
+    """message_esc_pattern, esc_pattern and code_pattern of slimta.smtp.reply against their models,
+    exhaustively over small alphabets; and, on the implementation alone, the statement of
+    C17_esc_patterns_agree / C17_construction_total: what message_esc_pattern captures, esc_pattern
+    accepts, and Reply(code, text) does not raise."""
+    A1 = '253.01 a'
+    A2 = '01. a\n'
+    cases = list(strings_over(A1, len_plain)) + list(strings_over(A2, len_prefixed, prefix='2.')) \
+        + list(strings_over(A2, len_prefixed - 1, prefix='5.1.'))
+    cases = list(dict.fromkeys(cases))
+    ctor_cases = []
+    for v, om, oe in batched(ctx, cases, ['c17_msgpat', 'c17_escpat']):
+        im, ie = impl_msgpat(v), impl_escpat(v)
+        mm, me = model_msgpat(om), model_escpat(oe)
+        hit = bool(im or ie or mm or me)
+        ctx.evaluated(('pat', v), nontrivial=hit)
+        if im != mm:
+            ctx.mismatch('message_esc_pattern', dict(text=v), im, mm)
+        if ie != me:
+            ctx.mismatch('esc_pattern', dict(text=v), ie, me)
+        if im:
+            ctx.count('pattern:message_esc_pattern-matches')
+            if impl_escpat(im[0]) is None:
+                report(ctx, 'c17:esc-patterns-disagree', dict(code='250', text=v, op='build'),
+                       'message_esc_pattern captures %r from %r but esc_pattern (the enhanced_status_code setter) refuses it' % (im[0], v))
+        if ie:
+            ctx.count('pattern:esc_pattern-matches')
+        if hit or len(v) <= 3:
+            ctor_cases.append(v)
+    # the constructor on everything either pattern (or model) matched, for a peeling and a non-peeling code
+    codes = ['250', '354', '550', '']
+    pairs = [(c, v) for v in ctor_cases for c in codes]
+    outs = ctx.model.batch('c17_ctor', [list(p) for p in pairs])
+    for (c, v), o in zip(pairs, outs):
+        io = impl_ctor(c, v)
+        mo = (o[0],) if o[0] != 0 else (0, U(o[1]), U(o[2]), U(o[3]), tuple(U(e) for e in o[4]))
+        ctx.evaluated(('ctor', c, v), nontrivial=(o[0] != 0 or bool(o[4]) or bool(ESC_SHAPED.match(v))))
+        if io != mo:
+            ctx.mismatch('ctor', dict(code=c, text=v, op='build'), io, mo)
+        if io[0] != 0 and (c == '' or VALID_CODE.match(c)):
+            report(ctx, 'c17:build-raises', dict(code=c, text=v, op='build'),
+                   'Reply(%r, %r) raised %s; no reply was built' % (c, v, CTOR_RAISES.get(io[0], io[-1])))
+    # code_pattern
+    codes = list(strings_over('25609a\n٣', 4))
+    outs = ctx.model.batch('c17_codepat', codes)
+    for c, o in zip(codes, outs):
+        ic = bool(reply_mod.code_pattern.match(c))
+        ctx.evaluated(('codepat', c), nontrivial=ic)
+        if ic != bool(o):
+            ctx.mismatch('code_pattern', dict(code=c), ic, bool(o))
+    ctx.count('pattern-strings', len(cases))
+    ctx.extra['exhaustive_patterns'] = ('message_esc_pattern / esc_pattern vs model on every string over %r up to length %d, "2." + every string over %r up to length %d, '
+                                        '"5.1." + ... up to length %d (%d strings); Reply(code, text) vs reply_ctor on the %d of them either pattern matches (and all of length <= 3) '
+                                        'x codes 250/354/550/None; code_pattern on every string over "25609a\\n\u0663" up to length 4'
+                                        % (A1, len_plain, A2, len_prefixed, len_prefixed - 1, len(cases), len(ctor_cases)))
 
 
 def run_classes(ctx):
@@ -262,28 +581,72 @@ def run_classes(ctx):
     ctx.evaluations += len(pts)
 
 
+CTOR_RAISES = {1: 'ValueError: Invalid SMTP reply code', 2: 'ValueError: Invalid ENHANCEDSTATUSCODES string'}
+
+
 def run(ctx):
-    ctx.extra['rule'] = ('structured: random sequences of 1-3 Reply(code,text) objects (codes 200..599, texts from ESC-looking/Unicode/CR/LF pieces), '
+    import time
+    ctx.extra['rule'] = ('structured: random sequences of 1-3 Reply(code,text) objects (codes 200..599, texts from ESC-looking/Unicode/CR/LF pieces; a quarter start with a '
+                         'status-code-looking triple: 1-3 / 4+ digit components, leading zeros, zeros, class equal to / different from the code class, classes 0,1,3,6,7,9, non-ASCII digits), '
                          'wire bytes + trailer re-parsed under whole/bytewise/linewise/random/every-single-cut segmentations with part pre-loaded in recv_buffer; '
+                         'esc-matrix: codes 250/220/354/334/451/421/550/535 x every listed status-code-looking prefix x 10 separators x single-/multi-line tails, built by the library '
+                         '(alone and with a pipelined successor) and, separately, written by a peer; '
+                         'patterns: message_esc_pattern / esc_pattern / code_pattern against their models exhaustively over small alphabets, Reply(code, text) against reply_ctor; '
                          'malformed: every byte string over {2,5,-,SP,CR,LF,a,.} to the stated length plus structured bad-UTF-8/mixed-code/non-numeric replies; '
-                         'distinct_nontrivial counts distinct (reply, segmentation) cases with multi-line, ESC-looking, non-ASCII or pipelined content and malformed inputs containing a complete line')
-    run_classes(ctx)
-    run_structured(ctx, 250 if ctx.quick else 4000)
-    run_malformed(ctx, 5 if ctx.quick else 7)
-    run_malformed_structured(ctx, 300 if ctx.quick else 5000)
+                         'every implementation call is guarded: an exception out of Reply()/send is c17:build-raises, out of Reply.recv (other than BadReply/ConnectionLost) c17:recv-raises-not-badreply; '
+                         'distinct_nontrivial counts distinct (reply, segmentation) cases with multi-line, status-code-looking, non-ASCII or pipelined content, malformed inputs containing a complete line, '
+                         'and pattern strings that one of the patterns matches')
+    _reported.clear()
+    stages = [
+        ('classes', lambda: run_classes(ctx)),
+        ('esc-matrix', lambda: run_esc_matrix(ctx, 8 if ctx.quick else 1)),
+        ('peer-esc', lambda: run_peer_esc(ctx, 500 if ctx.quick else 20000)),
+        ('structured', lambda: run_structured(ctx, 800 if ctx.quick else 4000)),
+        ('patterns', lambda: run_patterns(ctx, 6 if ctx.quick else 7, 6 if ctx.quick else 7)),
+        ('malformed', lambda: run_malformed(ctx, 5 if ctx.quick else 7)),
+        ('malformed-structured', lambda: run_malformed_structured(ctx, 300 if ctx.quick else 5000)),
+    ]
+    walls = {}
+    for name, f in stages:
+        t0 = time.time()
+        f()
+        walls[name] = round(time.time() - t0, 1)
+    ctx.extra['exhaustive_bound'] = ctx.extra.get('exhaustive_bound', '') + '; ' + ctx.extra.pop('exhaustive_patterns', '')
+    ctx.note('stage wall seconds: %s' % walls)
 
 
 def replay(ctx, case):
     c = case.get('case', case)
     def unhex(x):
         return bytes.fromhex(x['hex']) if isinstance(x, dict) else x
-    buf = unhex(c.get('buf', b'')) or b''
-    chunks = [unhex(x) for x in c.get('chunks', [])]
-    out = impl_recv(buf, chunks)
-    print('implementation:', out)
-    if ctx.model:
-        print('model         :', model_recv_out(ctx.model.call('c17_recv', [buf, chunks]), chunks))
-    if 'code' in c:
-        msg, wire, esc = impl_build(c['code'], c['text'])
-        print('Reply(%r, %r).message = %r, wire = %r' % (c['code'], c['text'], msg, wire))
-    return 0
+    rc = 0
+    if 'buf' in c or 'chunks' in c:
+        buf = unhex(c.get('buf', b'')) or b''
+        chunks = [unhex(x) for x in c.get('chunks', [])]
+        out = impl_recv(buf, chunks)
+        print('Reply.recv on buf=%r chunks=%r' % (buf, chunks))
+        print('implementation:', out)
+        if out[0] == 4:
+            print('  -> raised %s: neither a reply nor BadReply [c17:recv-raises-not-badreply]' % out[1])
+            rc = 1
+        if ctx.model:
+            print('model         :', model_recv_out(ctx.model.call('c17_recv', [buf, chunks]), chunks))
+    if 'code' in c and 'text' in c:
+        out = impl_ctor(c['code'], c['text'])
+        if out[0] != 0:
+            print('Reply(%r, %r) raised %s [c17:build-raises]' % (c['code'], c['text'], CTOR_RAISES.get(out[0], out[-1])))
+            m = impl_msgpat(c['text'])
+            if m:
+                print('  message_esc_pattern captures %r, esc_pattern.match(%r) = %r' % (m[0], m[0], impl_escpat(m[0])))
+            rc = 1
+        else:
+            try:
+                msg, wire, esc = impl_build(c['code'], c['text'])
+                print('Reply(%r, %r).message = %r, enhanced_status_code = %r, wire = %r' % (c['code'], c['text'], msg, esc, wire))
+            except Exception as exc:
+                print('Reply(%r, %r).send raised %s [c17:build-raises]' % (c['code'], c['text'], exc_text(exc)))
+                rc = 1
+        if ctx.model:
+            o = ctx.model.call('c17_ctor', [c['code'], c['text']])
+            print('model reply_ctor:', (o[0],) if o[0] != 0 else (0, U(o[1]), U(o[2]), U(o[3]), tuple(U(e) for e in o[4])))
+    return rc
